@@ -98,7 +98,7 @@ impl Position {
         let y_ext = self.y_def();
         if let (Some((x1, x2)), Some((y1, y2))) = (x_ext, y_ext) {
             Some(BoundingBox::new(x1, y1, x2, y2))
-        } else if self.shape == "point" {
+        } else if self.shape == "point" || self.shape == "text" {
             // For points, we don't need extent at all, just at least one x and at least one y
             let px = self.xmin.or(self.xmax.or(self.cx));
             let py = self.ymin.or(self.ymax.or(self.cy));
@@ -210,6 +210,20 @@ impl Position {
         // TODO: should this return an error if no BBox?
         if let Some(bbox) = self.to_bbox() {
             match element.name.as_str() {
+                // a text has no extent: whichever anchor is given (cx / cy, x2 / y2) is
+                // its position. (dx / dy keep their SVG meaning on a text.)
+                "text" => {
+                    if ["cx", "cy", "x2", "y2"].iter().any(|a| element.has_attr(a)) {
+                        let (x, y) = bbox.locspec(LocSpec::TopLeft);
+                        if self.has_x_position() {
+                            element.set_attr("x", &fstr(x));
+                        }
+                        if self.has_y_position() {
+                            element.set_attr("y", &fstr(y));
+                        }
+                        element.remove_attrs(&["x2", "y2", "cx", "cy"]);
+                    }
+                }
                 "point" => {
                     let (x, y) = bbox.locspec(LocSpec::TopLeft);
                     if self.has_x_position() {
